@@ -171,6 +171,22 @@ impl Prop for C12 {
                 }
             }
         };
+        // one pair in eight is made pure ASCII (the shape on which an `is_ascii()` shortcut would be taken): the
+        // multi-code-point cluster becomes CR LF (one cluster in grapheme mode), the multi-byte ones single bytes
+        let (a, b) = if rng.chance(1, 8) {
+            let asc = |u: &&'static str| -> &'static str {
+                match *u {
+                    "ä" => "c",
+                    "e\u{301}" | " \u{301}" => "\r\n",
+                    "\u{a0}" | "\u{3000}" => "\t",
+                    "\u{301}" => "\n",
+                    x => x,
+                }
+            };
+            (a.iter().map(asc).collect::<Vec<_>>(), b.iter().map(asc).collect::<Vec<_>>())
+        } else {
+            (a, b)
+        };
         let na = if rng.chance(1, 2) { 1 } else { rng.below(4) };
         let nb = if rng.chance(1, 8) { rng.below(4) } else { na };
         mk_input(g, swap, sid, norm, &a.concat(), &b.concat(), na, nb)
